@@ -468,6 +468,7 @@ class RmReg64(Constructor):
     reg_rm = Operand("reg_rm", Register64, read=True)
     syntax = Syntax([reg_rm])
     patterns = {"mod": 3}
+    is_reg_target = True
 
     def set_user_patterns(self, tokens):
         tokens.set_field("b", self.reg_rm.rexbit)
@@ -480,6 +481,7 @@ class RmReg32(Constructor):
     reg_rm = Operand("reg_rm", Register32, read=True)
     syntax = Syntax([reg_rm])
     patterns = {"mod": 3}
+    is_reg_target = True
 
     def set_user_patterns(self, tokens):
         tokens.set_field("b", self.reg_rm.rexbit)
@@ -492,6 +494,7 @@ class RmReg16(Constructor):
     reg_rm = Operand("reg_rm", Register16, read=True)
     syntax = Syntax([reg_rm])
     patterns = {"mod": 3}
+    is_reg_target = True
 
     def set_user_patterns(self, tokens):
         tokens.set_field("rm", self.reg_rm.num)
@@ -503,6 +506,7 @@ class RmReg8(Constructor):
     reg_rm = Operand("reg_rm", Register8, read=True)
     syntax = Syntax([reg_rm])
     patterns = {"mod": 3}
+    is_reg_target = True
 
     def set_user_patterns(self, tokens):
         tokens.set_field("b", self.reg_rm.rexbit)
@@ -745,7 +749,7 @@ Jmp = make_rm64("jmp", 0xFF, 4)
 
 def make_rm_reg64(mnemonic, opcode, read_op1=True, write_op1=True):
     """Create instruction class rm, reg"""
-    rm = Operand("rm", rm64_modes)
+    rm = Operand("rm", rm64_modes, write=write_op1)
     reg = Operand("reg", Register64, read=True)
     syntax = Syntax([mnemonic, " ", rm, ",", " ", reg], priority=0)
     members = {"syntax": syntax, "rm": rm, "reg": reg, "opcode": opcode}
@@ -754,7 +758,7 @@ def make_rm_reg64(mnemonic, opcode, read_op1=True, write_op1=True):
 
 def make_rm_reg32(mnemonic, opcode, read_op1=True, write_op1=True):
     """Create instruction class rm, reg"""
-    rm = Operand("rm", rm32_modes)
+    rm = Operand("rm", rm32_modes, write=write_op1)
     reg = Operand("reg", Register32, read=True)
     syntax = Syntax([mnemonic, " ", rm, ",", " ", reg], priority=0)
     members = {"syntax": syntax, "rm": rm, "reg": reg, "opcode": opcode}
@@ -763,7 +767,7 @@ def make_rm_reg32(mnemonic, opcode, read_op1=True, write_op1=True):
 
 def make_rm_reg16(mnemonic, opcode, read_op1=True, write_op1=True):
     """Create instruction class rm, reg"""
-    rm = Operand("rm", rm16_modes)
+    rm = Operand("rm", rm16_modes, write=write_op1)
     reg = Operand("reg", Register16, read=True)
     syntax = Syntax([mnemonic, " ", rm, ",", " ", reg], priority=0)
     members = {"syntax": syntax, "rm": rm, "reg": reg, "opcode": opcode}
@@ -772,7 +776,7 @@ def make_rm_reg16(mnemonic, opcode, read_op1=True, write_op1=True):
 
 def make_rm_reg8(mnemonic, opcode, read_op1=True, write_op1=True):
     """Create instruction class rm, reg"""
-    rm = Operand("rm", rm8_modes)
+    rm = Operand("rm", rm8_modes, write=write_op1)
     reg = Operand("reg", Register8, read=True)
     syntax = Syntax([mnemonic, " ", rm, ",", " ", reg], priority=0)
     members = {"syntax": syntax, "rm": rm, "reg": reg, "opcode": opcode}
